@@ -524,6 +524,17 @@ def end_to_end_batches(seed, tier):
                     a["hascentre"] = False
                     if a["type"] == "action":    # keep state changes out of the script's way (cc-learning would gate the
                         a["act"], a["actn"] = "mapping", "multinote"   # key-emulating axes: observation O1, outside C08)
+        # controller numbers are distinct across the axes of a mapping (C06 / C07 speak of an axis' own controllers; two
+        # axes driving one controller number on one channel are outside their quantifiers)
+        for m in d["maps"]:
+            pool = list(range(0, 120))
+            rng.shuffle(pool)
+            for s in m["analog"]:
+                for a in s["map"]:
+                    if a["type"] == "cc":
+                        a["cc"] = pool.pop()
+                        if a["hasccn"]:
+                            a["ccn"] = pool.pop()
         d["exit"] = []
         # keys that are both an action and a note are actions for the engine: drop the note role
         acts = {a["code"] for a in d["actions"]}
